@@ -73,13 +73,15 @@ def table():
         txt = path[:-5] + ".txt"
         if os.path.exists(txt):
             desc = open(txt).read().strip()
+        elif os.path.exists(os.path.join(os.path.dirname(path), "desc.txt")):
+            desc = open(os.path.join(os.path.dirname(path), "desc.txt")).read().strip()
         else:
             meta = os.path.join(os.path.dirname(path), "meta.json")
             if os.path.exists(meta):
                 desc = "sub-agent change against " + json.load(open(meta)).get("property", "?")
         t = d.get("tests", {})
         tests = "%d pass" % t.get("passed", 0) if d.get("tests_pass") else ("FAIL" if "tests" in d else "?")
-        rows.append("| %s | %s | %s | %s |" % (name, desc.replace("|", "/")[:150], tests,
+        rows.append("| %s | %s | %s | %s |" % (name, desc.replace("|", "/")[:170], tests,
                                               " | ".join(cell(d.get("checks", {}).get(p)) for p in PROPS)))
     head = "| change | what it does | pinned tests | " + " | ".join(PROPS) + " |\n|---|---|---|" + "---|" * len(PROPS)
     return head + "\n" + "\n".join(rows)
